@@ -45,6 +45,19 @@ MINI_P = build("p:")
 GROUP = HedSchemaGroup([MINI, MINI_P])
 
 
+def fresh(obj=None):
+    """A private deep copy of MINI (or of the given schema/group) for one harness call: lookups on it cannot
+    leave state behind for other execution paths (a schema object that memoises would otherwise make CrossHair
+    paths depend on each other and counterexamples irreproducible)."""
+    import copy
+    try:
+        from crosshair.tracers import NoTracing
+    except ImportError:
+        return copy.deepcopy(MINI if obj is None else obj)
+    with NoTracing():
+        return copy.deepcopy(MINI if obj is None else obj)
+
+
 def tree():
     """The mini tag tree read from the MediaWiki text (NOT from hed-python objects):
     list of dict(name, long, parent_long, attrs=[...], is_value=bool)."""
